@@ -103,22 +103,78 @@ func checkC07(c *km.Ctx) {
 	// ---------- R-C07-3 (the acceptance of a cached record is judged in checkLDAPVerdict)
 	if gs := c.MustFunc("R-C07-3", "cmd/keymasterd", "(*RuntimeState).GetSigned"); gs != nil {
 		verified := primErrNil("record verified", RS+"getStorageDataFromStorageStringDataJWT", 1)
+		// the requested user: GetSigned's parameter, or a helper's parameter GetSigned binds to it
+		isUser := func(v ssa.Value) bool {
+			v = km.Unwrap(v)
+			if v == ssa.Value(gs.Params[1]) {
+				return true
+			}
+			p, ok := v.(*ssa.Parameter)
+			if !ok {
+				return false
+			}
+			g := p.Parent()
+			idx := -1
+			for i, q := range g.Params {
+				if q == p {
+					idx = i
+				}
+			}
+			n := 0
+			for _, cs := range c.G.Callers[g] {
+				ci, ok := cs.Instr.(ssa.CallInstruction)
+				if !ok || cs.Caller != gs {
+					return false
+				}
+				a := km.CallArgs(ci.Common())
+				if idx < 0 || idx >= len(a) || km.Unwrap(a[idx]) != ssa.Value(gs.Params[1]) {
+					return false
+				}
+				n++
+			}
+			return n > 0
+		}
 		subject := km.Prim{Name: "subject == user", Direct: func(f km.Fact) bool {
 			if f.Op != token.EQL {
 				return false
 			}
-			return (mentionsField(f.X, "Subject") && km.Unwrap(f.Y) == ssa.Value(gs.Params[1])) || (mentionsField(f.Y, "Subject") && km.Unwrap(f.X) == ssa.Value(gs.Params[1]))
+			return (mentionsField(f.X, "Subject") && isUser(f.Y)) || (mentionsField(f.Y, "Subject") && isUser(f.X))
 		}}
 		n := 0
 		for _, rc := range s.RetCases(gs) {
-			if km.ValStr(rc.Results[0]) != "true" {
+			// every way this return can yield true (directly, or as the result of a helper for one of the two
+			// storage paths) carries the verification and the subject test
+			nTrue := 0
+			okFacts, dataOK := true, true
+			for _, k := range rc.State {
+				for _, lf := range s.Leaves(k, gs, rc.Ret, rc.Results[0], nil, 2) {
+					if km.ValStr(km.Unwrap(lf.Val)) != "true" {
+						if _, isC := km.Unwrap(lf.Val).(*ssa.Const); isC {
+							continue
+						}
+						okFacts = false // a computed verdict
+						nTrue++
+						continue
+					}
+					nTrue++
+					if !s.Holds(lf.K, verified) || !s.Holds(lf.K, subject) {
+						okFacts = false
+					}
+				}
+				for _, lf := range s.Leaves(k, gs, rc.Ret, rc.Results[1], nil, 2) {
+					if cs, isC := km.ConstString(lf.Val); isC && cs == "" {
+						continue
+					}
+					if !fieldLoadOf(lf.Val, KMD+".storageStringDataJWT", "Data") {
+						dataOK = false
+					}
+				}
+			}
+			if nTrue == 0 {
 				continue
 			}
 			n++
-			ok := rc.State.All(func(k km.Conj) bool { return s.Holds(k, verified) && s.Holds(k, subject) })
-			// returned data is the verified record's
-			dataOK := fieldLoadOf(rc.Results[1], KMD+".storageStringDataJWT", "Data")
-			r.Add("R-C07-3", km.FuncName(gs), "signed record returned", posOf(c, rc.Ret), "record verified (signature, kind, issuer, audience, nbf, exp) ∧ subject == requested user; returns that record's data", sprintf("facts=%v data-of-record=%v", ok, dataOK), ok && dataOK)
+			r.Add("R-C07-3", km.FuncName(gs), "signed record returned", posOf(c, rc.Ret), "record verified (signature, kind, issuer, audience, nbf, exp) ∧ subject == requested user; returns that record's data", sprintf("facts=%v data-of-record=%v", okFacts, dataOK), okFacts && dataOK)
 		}
 		if n == 0 {
 			r.AnchorLost("R-C07-3", "successful return of GetSigned")
